@@ -105,6 +105,19 @@ pub fn spec(id: &str, tier: Tier) -> Option<CheckSpec> {
             s.hang_secs = 20;
             s
         }
+        "C01" | "C04" | "C05" | "C06" | "C18" | "C19" => {
+            let mut s = CheckSpec::new("model_checking", tier);
+            s.jobs = eng_sched::jobs(id, tier);
+            s.rule = format!("stateless exhaustive exploration of the real run::build under a gated, scripted executor: for every scenario of the families {:?} (abstract project -> generated manifest loaded by the real loader; initial state fresh or fully built then edited; per-step command outcome; -j/-k/targets) every sequence of choices (which running command finishes next; in which order newly ready dependents are visited) is executed and the property's trace monitor is evaluated against the abstract project and the reference model. States = explorer nodes (scenario, choice prefix), transitions = choice points taken, non-trivial = distinct traces with at least two command starts.", s.jobs.iter().map(|j| j.0.clone()).collect::<Vec<_>>());
+            s.assumptions = vec![
+                "commands are scripted: they write only their outputs/depfile, with mtimes from a logical clock".into(),
+                "exactly one thread runs at a time (cooperative gates); real thread interleavings of task::Runner are not explored here".into(),
+                "bounds: 3-step graphs over all edge kinds exhaustively, 4-step graphs on reduced edge alphabets, curated 4-6 step shapes".into(),
+            ];
+            s.must_be_nonzero = vec!["executions_with_concurrency", "executions_with_choice"];
+            s.hang_secs = 40;
+            s
+        }
         _ => return None,
     };
     Some(spec)
@@ -135,6 +148,7 @@ pub fn case_from_marker(_prop: &str, job: &str, index: u64, bytes: &[u8]) -> Val
         "canon" => eng_canon::case_from_marker(job, index, bytes),
         "depfile" => eng_depfile::case_from_marker(job, bytes),
         "total" => eng_total::case_from_marker(job, bytes),
+        "sched" => eng_sched::case_from_marker(job, bytes),
         _ => json!({"job": job, "index": index, "marker": String::from_utf8_lossy(bytes)}),
     }
 }
